@@ -5,6 +5,7 @@ import ICS.Spec.Epoch
 import ICS.Spec.C12
 import ICS.Spec.C15
 import ICS.Spec.Slash
+import ICS.Spec.C01
 namespace ICS.Driver
 open ICS ICS.Provider ICS.Epoch
 
@@ -260,6 +261,8 @@ structure ProvDrv where
   impl : ProvImpl := {}
   engine : List ValSet.Val := []      -- the consensus engine's view: all returned updates folded
   armed  : Bool := false              -- a failure of an external call is armed for the next block operation
+  firstDue : List (String × Int) := []  -- consumer ↦ removal time scheduled by its FIRST stop
+  legit : List (String × List Nat) := []  -- consumer ↦ validators that opted in themselves or were required by Top-N at some epoch
 
 def launchEnvOf (impl : ProvImpl) (s : State) (c : CId) : LaunchEnv :=
   let x := s.get c
@@ -406,6 +409,14 @@ def stepProvCore (d : ProvDrv) (a : Acc) (s : Step) : ProvDrv × Acc :=
       let a := a.spec s.lineNo "C08.ack-cases" (Spec.Slash.ackCases dl)
       let a := a.spec s.lineNo "C09.meter-rule" (Spec.Slash.meterRule dl)
       ({ impl := after }, compareState a s.lineNo r.1 after lifecycleFields lifecycleGlobals)
+  | "timeout" | "ackerr" =>
+    match timeoutOrErrorAck st (s.op.get "ch") with
+    | none => ({ impl := after }, (a.tag "timeout-unknown").cmp s.lineNo "timeout.res" "err" res)
+    | some st' =>
+      let a := { (a.tag "timeout-stops").cmp s.lineNo "timeout.res" "ok" res with nontrivial := a.nontrivial + 1 }
+      ({ impl := after }, compareState a s.lineNo st' after lifecycleFields lifecycleGlobals)
+  | "ackok" =>
+    ({ impl := after }, compareState (a.cmp s.lineNo "ackok.res" "ok" res) s.lineNo st after lifecycleFields lifecycleGlobals)
   | "chantry" | "chaninit" =>
     let connOf := fun (h : String) =>
       match (before.conns.get h).splitOn "|" with
@@ -478,6 +489,16 @@ def epochSpecs (a : Acc) (lineNo : Nat) (op : Line) (b t : State) (after : ProvI
       let w := viewOf b e.2 x
       let a := a.tag "valset-computed"
       let d := s!"consumer={e.1} valset={renderCVals x.valset} bonded={fmtNatList w.bonded} m={w.m}"
+      -- C01: what is queued for the consumer is exactly the difference between its previous and its
+      -- new stored set (nothing is queued iff nothing changed); at launch the genesis carries the set
+      let newPkts := x.pend.drop xb.pend.length
+      let upd := (newPkts.flatMap (·.updates))
+      let a := if op.name == "end" then
+          a.spec lineNo "C01.packet-is-diff"
+            (Spec.C01.diffOK (Epoch.toVals xb.valset) (Epoch.toVals x.valset) upd &&
+             decide (newPkts.length ≤ 1) && (newPkts.all fun p => p.id == b.vscId))
+            s!"consumer={e.1} before={renderCVals xb.valset} after={renderCVals x.valset} upd={renderUpd upd ","}"
+        else a
       let a := a.spec lineNo "C02.sound" (Spec.Epoch.c02Sound w && Spec.Epoch.c02NoDup w) d
       let a := a.spec lineNo "C02.active-set" (Spec.Epoch.c02Active w) d
       let a := a.spec lineNo "C02.power" (Spec.Epoch.c02Power w) d
@@ -509,6 +530,11 @@ def provInvariants (a : Acc) (lineNo : Nat) (op : Line) (ok : Bool) (b t : State
   let a := a.spec lineNo "C20.infr-change" (Spec.Prov.infrChange b t op.name)
   let a := if perConsumer then a.spec lineNo "C13.others-untouched" (Spec.Prov.othersUntouched b t target) else a
   let a := if op.name == "create" then a.spec lineNo "C13.others-untouched" (Spec.Prov.othersUntouched b t ((s!"{b.nextId}"))) else a
+  let a := if perConsumer then a.spec lineNo "C13.schedules-untouched" (Spec.Prov.schedulesUntouched b t target) else a
+  let a := if op.name == "end" && ok then
+      let a := a.spec lineNo "C13.prune-own-only" (Spec.Prov.pruneExact b t)
+      a.spec lineNo "C06.prune-exact" (Spec.Prov.pruneExact b t)
+    else a
   a.spec lineNo "C05.key-inv" (Spec.Prov.keyInv t)
 
 def stepProv (d : ProvDrv) (a : Acc) (s : Step) : ProvDrv × Acc :=
@@ -529,6 +555,67 @@ def stepProv (d : ProvDrv) (a : Acc) (s : Step) : ProvDrv × Acc :=
     let t := r.1.impl.toState
     let a := provInvariants r.2 s.lineNo s.op ok b t
     let a := if ok && !d.armed then epochSpecs a s.lineNo s.op b t r.1.impl else a
+    -- C11: removal happens one unbonding period after the FIRST stop
+    let firstDue := t.consumers.foldl (fun (fd : List (String × Int)) x =>
+      if x.phase == .stopped && (b.get x.id).phase == .launched && !fd.any (·.1 == x.id) then fd ++ [(x.id, b.now + b.unbonding)] else fd) d.firstDue
+    let a := if s.op.name == "begin" && ok && !d.armed then
+        a.spec s.lineNo "C11.removed-after-first-stop"
+          (decide (((b.removeQ.filter fun e => decide (e.1 ≤ t.now)).flatMap (·.2)).length > 200) ||
+           t.consumers.all fun x =>
+            match firstDue.find? (·.1 == x.id) with
+            | some e => !(decide (e.2 ≤ t.now)) || x.phase == .deleted
+            | none => true)
+      else a
+    -- C03: a Top-N parameter change recomputes the threshold at once
+    let a := if s.op.name == "update" && ok then
+        t.consumers.foldl (fun a x =>
+          let tb := ((b.get x.id).ps.getD {}).topN
+          let ta := (x.ps.getD {}).topN
+          if ta != tb && ta > 0 then
+            a.spec s.lineNo "C03.threshold-on-param-change"
+              (x.minpow == Spec.Epoch.trueThreshold ((b.bonded.take b.maxVals |>.take b.m).map (Epoch.lastPower b.stk)) ta)
+              s!"consumer={x.id} minpow={x.minpow} topN={ta}"
+          else a) a
+      else a
+    -- C02: who may be opted in: validators that opted in themselves (and did not opt out since), and
+    -- validators that were at or above the Top-N threshold at some epoch / launch since
+    let legit0 := d.legit
+    let legit1 : List (String × List Nat) :=
+      if s.op.name == "optin" && ok then
+        let c := s.op.get "c"; let v := s.op.nat "v"
+        if legit0.any (·.1 == c) then legit0.map fun e => if e.1 == c then (c, e.2 ++ [v]) else e else legit0 ++ [(c, [v])]
+      else if s.op.name == "optout" && ok then
+        legit0.map fun e => if e.1 == s.op.get "c" then (e.1, e.2.filter (· != s.op.nat "v")) else e
+      else legit0
+    let computedNow := fun (x : Consumer) =>
+      (s.op.name == "end" && b.height % b.epoch == 0 && (b.get x.id).phase == .launched && (b.get x.id).client.isSome) ||
+      (s.op.name == "begin" && x.phase == .launched && (b.get x.id).phase != .launched)
+    let legit2 : List (String × List Nat) := t.consumers.foldl (fun lg x =>
+      let n := (x.ps.getD {}).topN
+      if computedNow x && n > 0 then
+        let act := (b.bonded.take b.maxVals).take b.m
+        match Spec.Epoch.trueThreshold (act.map (Epoch.lastPower b.stk)) n with
+        | some m =>
+          let req := act.filter fun v => decide (Epoch.lastPower b.stk v ≥ m)
+          if lg.any (·.1 == x.id) then lg.map fun e => if e.1 == x.id then (e.1, e.2 ++ req) else e else lg ++ [(x.id, req)]
+        | none => lg
+      else lg) legit1
+    let a := if ok && !d.armed then
+        t.consumers.foldl (fun a x =>
+          if x.phase == .deleted || x.phase == .unspecified then a
+          else
+            let lg := match legit2.find? (·.1 == x.id) with | some e => e.2 | none => []
+            a.spec s.lineNo "C02.optin-legit" (x.optin.all fun v => lg.contains v)
+              s!"consumer={x.id} optin={fmtNatList x.optin} legit={fmtNatList lg}") a
+      else a
+    -- C14: a Top-N value is set only by a message from the governance authority
+    let a := if s.op.name == "update" && ok then
+        a.spec s.lineNo "C14.topn-set-by-gov-only"
+          (t.consumers.all fun x =>
+            let tb := ((b.get x.id).ps.getD {}).topN
+            let ta := (x.ps.getD {}).topN
+            ta == 0 || ta == tb || s.op.get "s" == b.authority)
+      else a
     -- C19: block processing never fails; failing consumer operations are rolled back
     let a := if s.op.name == "begin" || s.op.name == "end" then
         a.spec s.lineNo "C19.block-ok" ok s!"res={(s.ob "r").get "res"} armed={d.armed}" else a
@@ -538,6 +625,8 @@ def stepProv (d : ProvDrv) (a : Acc) (s : Step) : ProvDrv × Acc :=
         a.spec s.lineNo "C19.clients-match-launches" (Spec.Prov.clientsMatchLaunches b t)
       else a
     let a := if s.op.name == "end" && ok then a.spec s.lineNo "C19.send-failure-contained" (Spec.Prov.sendFailureContained b t) else a
+    let r := ({ r.1 with firstDue := firstDue, legit := legit2 }, a)
+    let a := r.2
     -- C12 / C15 at provider EndBlock
     if s.op.name == "end" && ok then
       let o := s.ob "r"
